@@ -477,6 +477,19 @@ out:
 }
 
 /* --------------------------------------------------- explicit-state exploration -- */
+
+/* explicit-state variant with hostile names: children get, by position, the bytewise ascending family
+ * "" < "a" < "a\0" < "aa" < "b\xff" < "\x80" ; lookups then also ask for near misses of these */
+static bool hostile_names;
+static const struct { const char *s; size_t n; } HN[] = { { "", 0 }, { "a", 1 }, { "a\0", 2 }, { "aa", 2 }, { "b\xff", 2 }, { "\x80", 1 }, { "\xff", 1 } };
+static const struct { const char *s; size_t n; } HABS[] = { { "a\0\0", 3 }, { "ab", 2 }, { "b", 1 }, { "\x7f", 1 }, { "\x80\x00", 2 }, { "\x00", 1 }, { "aa\x00", 3 } };
+static void rename_hostile(vnode *n)
+{
+    for (uint32_t i = 0; i < n->nkids; i++) {
+        if (n->kind == K_OBJ && i < 7) vt_setname(n->kids[i], (const uint8_t *)HN[i].s, (uint32_t)HN[i].n);
+        rename_hostile(n->kids[i]);
+    }
+}
 #define XF 10
 typedef struct { vnode *root; int nf; bool started, done; uint16_t depth; vframe f[XF]; uint8_t mem[]; } xstate;
 static void x_pack(xstate *x, const vcur *m) { x->root = m->root; x->nf = m->nf; x->started = m->started; x->done = m->done; memcpy(x->f, m->f, sizeof(vframe) * (size_t)(m->nf < XF ? m->nf : XF)); }
@@ -502,6 +515,7 @@ static void explore_tree(const char *code, uint64_t caseno, char flavor, vrng *r
     c.r = r; c.flavor = flavor;
     const char *s = code; int counter = 0;
     vnode *root = vt_from_code(&s, &counter);
+    if (hostile_names) rename_hostile(root);
     ctx_open(&c, root, 0);
     size_t msz = sizeof(binson_parser) + sizeof(binson_state) * (size_t)c.max_depth;
     size_t ssz = sizeof(xstate) + msz;
@@ -525,7 +539,7 @@ static void explore_tree(const char *code, uint64_t caseno, char flavor, vrng *r
         const xstate *X = (const xstate *)curst;
         if (X->done) continue;
         /* the alphabet at this state */
-        struct { int op; uint8_t name[4]; size_t nl; int variant; } ops[40]; int nops = 0;
+        struct { int op; uint8_t name[4]; size_t nl; int variant; } ops[64]; int nops = 0;
         vnode *cur = NULL;
         x_unpack(X, &c.m);
         cur = vc_current(&c.m);
@@ -541,7 +555,17 @@ static void explore_tree(const char *code, uint64_t caseno, char flavor, vrng *r
             if (vc_in_object(&c.m)) {
                 vnode *o = c.m.f[c.m.nf - 1].c;
                 /* present names */
-                for (uint32_t k = 0; k < o->nkids && nops < 34; k++) {
+                for (uint32_t k = 0; k < o->nkids && nops < 34 && hostile_names; k++) {
+                    size_t nl = o->kids[k]->name_len;
+                    ops[nops].op = (k & 1) ? OP_FIELD_E : OP_FIELD; memcpy(ops[nops].name, o->kids[k]->name, nl); ops[nops].nl = nl; ops[nops].variant = (int)k; nops++;
+                }
+                for (uint32_t k = 0; k < 7 && hostile_names; k++) {
+                    ops[nops].op = (k & 1) ? OP_FIELD : OP_FIELD_E; memcpy(ops[nops].name, HABS[k].s, HABS[k].n); ops[nops].nl = HABS[k].n; ops[nops].variant = (int)k; nops++;
+                    if (k < o->nkids) continue;
+                    /* names of the family that this object does not have are absent names too */
+                    ops[nops].op = OP_FIELD; memcpy(ops[nops].name, HN[k].s, HN[k].n); ops[nops].nl = HN[k].n; ops[nops].variant = 0; nops++;
+                }
+                for (uint32_t k = 0; k < o->nkids && nops < 34 && !hostile_names; k++) {
                     ops[nops].op = OP_FIELD; memcpy(ops[nops].name, o->kids[k]->name, 2); ops[nops].nl = 2; ops[nops].variant = (int)k; nops++;
                     if (flavor == '7') {
                         ops[nops].op = OP_FIELD_E; memcpy(ops[nops].name, o->kids[k]->name, 2); ops[nops].nl = 2; ops[nops].variant = (int)k + 1; nops++;
@@ -551,11 +575,11 @@ static void explore_tree(const char *code, uint64_t caseno, char flavor, vrng *r
                         ops[nops].op = OP_FIELD_E; memcpy(ops[nops].name, o->kids[k]->name, 2); ops[nops].name[2] = 'y'; ops[nops].nl = 3; ops[nops].variant = 2; nops++;
                     }
                 }
-                if (flavor != '6') {
+                if (flavor != '6' && !hostile_names) {
                     ops[nops].op = OP_FIELD; ops[nops].name[0] = 'a'; ops[nops].nl = 1; ops[nops].variant = 1; nops++;   /* before everything */
                     ops[nops].op = OP_FIELD; ops[nops].name[0] = 'z'; ops[nops].name[1] = 'z'; ops[nops].nl = 2; ops[nops].variant = 0; nops++; /* after everything */
                 }
-                if (flavor == '7') { ops[nops].op = OP_FIELD; ops[nops].nl = 0; ops[nops].variant = 0; nops++; }      /* the empty name */
+                if (flavor == '7' && !hostile_names) { ops[nops].op = OP_FIELD; ops[nops].nl = 0; ops[nops].variant = 0; nops++; }      /* the empty name */
             }
         }
         for (int k = 0; k < nops && !bad; k++) {
@@ -689,6 +713,7 @@ int main(int argc, char **argv)
     if (m[3] == 'x') {
         int maxn = atoi(VA.opt); if (maxn < 2) maxn = 5; if (maxn > 7) maxn = 7;
         vt_enum_build(maxn, strstr(VA.opt, "noscalarstr") ? "i" : "is");
+        hostile_names = strstr(VA.opt, "hostile") != NULL;
         xs_cap = 1 << 12; xs_seen = (uint64_t *)calloc(xs_cap, 8);
         /* container-rooted trees only, dealt round-robin to the workers */
         uint64_t idx = 0;
